@@ -300,7 +300,9 @@ def processCycle (cs : CaseSt) (d : D) (ws : List String) : CaseSt × D × List 
         let (c', err) := specStep c b0 bn
         let a := { a with cs := { a.cs with chainSpec := some c' } }
         match err with
-        | some e => a.fail "seq:chain" s!"cyc={a.cs.cyc} {e}"
+        | some e =>
+          let flds := if e.startsWith "fields=" then ((e.drop 7).toString.splitOn " ").headD "?" else "extra"
+          a.fail s!"seq:chain:{flds}" s!"cyc={a.cs.cyc} {e}"
         | none => a
       | none => a
     let a := { a with d := { a.d with tout := a.d.tout + (if bn.v && bn.r then 1 else 0) } }
